@@ -449,12 +449,34 @@ type streamReaderWithConvert[T any] struct {
 	sr iStreamReader
 
 	convert func(any) (T, error)
+
+	errWrapper func(error) error
 }
 
-func newStreamReaderWithConvert[T any](origin iStreamReader, convert func(any) (T, error)) *StreamReader[T] {
+type convertOptions struct {
+	errWrapper func(error) error
+}
+
+// ConvertOption is an option of StreamReaderWithConvert.
+type ConvertOption func(*convertOptions)
+
+// WithErrWrapper lets the converted reader hand every error item of the source stream (not io.EOF, and
+// not the errors returned by the convert function) through wrapper before it is delivered.
+func WithErrWrapper(wrapper func(error) error) ConvertOption {
+	return func(o *convertOptions) {
+		o.errWrapper = wrapper
+	}
+}
+
+func newStreamReaderWithConvert[T any](origin iStreamReader, convert func(any) (T, error), opts ...ConvertOption) *StreamReader[T] {
+	o := &convertOptions{}
+	for _, opt := range opts {
+		opt(o)
+	}
 	srw := &streamReaderWithConvert[T]{
-		sr:      origin,
-		convert: convert,
+		sr:         origin,
+		convert:    convert,
+		errWrapper: o.errWrapper,
 	}
 
 	return &StreamReader[T]{
@@ -475,7 +497,7 @@ func newStreamReaderWithConvert[T any](origin iStreamReader, convert func(any) (
 //	defer stringReader.Close() // Close the reader if you using Recv(), or may cause memory/goroutine leak.
 //	s, err := stringReader.Recv()
 //	fmt.Println(s) // Output: val_1
-func StreamReaderWithConvert[T, D any](sr *StreamReader[T], convert func(T) (D, error)) *StreamReader[D] {
+func StreamReaderWithConvert[T, D any](sr *StreamReader[T], convert func(T) (D, error), opts ...ConvertOption) *StreamReader[D] {
 	c := func(a any) (D, error) {
 		// a always comes from sr, so it holds a T; if T is an interface type a nil chunk arrives
 		// here as a nil `any`, on which a plain a.(T) would panic
@@ -483,7 +505,7 @@ func StreamReaderWithConvert[T, D any](sr *StreamReader[T], convert func(T) (D, 
 		return convert(t)
 	}
 
-	return newStreamReaderWithConvert(sr, c)
+	return newStreamReaderWithConvert(sr, c, opts...)
 }
 
 func (srw *streamReaderWithConvert[T]) recv() (T, error) {
@@ -492,6 +514,9 @@ func (srw *streamReaderWithConvert[T]) recv() (T, error) {
 
 		if err != nil {
 			var t T
+			if srw.errWrapper != nil && err != io.EOF {
+				err = srw.errWrapper(err)
+			}
 			return t, err
 		}
 
@@ -549,7 +574,9 @@ func (srw *streamReaderWithConvert[T]) toStream() *stream[T] {
 			}
 
 			var out T
-			if err == nil {
+			if err != nil && srw.errWrapper != nil {
+				err = srw.errWrapper(err)
+			} else if err == nil {
 				out, err = srw.convert(in)
 				if err != nil && errors.Is(err, ErrNoValue) {
 					select {
